@@ -11,3 +11,4 @@ open PgmVerif
 #print axioms PgmVerif.C05_check_model_iff
 #print axioms PgmVerif.C05_atol_tie
 #print axioms PgmVerif.C05_joint_mass_one
+#print axioms PgmVerif.C05_joint_mass_within_tolerance
